@@ -220,8 +220,13 @@ pub struct Failing {
 
 fn same_rule(mon: &MonOut, rule: &str, site: &str) -> Option<Violation> {
     // non-positional sites (e.g. a panic location) are part of the violation's identity
-    let positional = site.starts_with('L') || site.starts_with("x#") || site.starts_with("behaviour#");
-    mon.violations.iter().find(|v| v.rule == rule && (positional || v.site == site)).cloned()
+    let is_pos = |s: &str| {
+        (s.starts_with('L') && s[1..].chars().next().map(|c| c.is_ascii_digit()).unwrap_or(false)) || s.starts_with("x#") || s.starts_with("behaviour#")
+    };
+    let positional = is_pos(site);
+    // a positional site may move while shrinking, but must stay positional (never slide into
+    // a differently named violation of the same rule, e.g. a known finding)
+    mon.violations.iter().find(|v| v.rule == rule && ((positional && is_pos(&v.site)) || v.site == site)).cloned()
 }
 
 /// Shrink the failing run: first make it self-contained ("every decision is 0 except these"),
